@@ -49,6 +49,12 @@ def make_target(n, edges, form):
     from graphiq.state import QuantumState
     if form == "nx":
         return gq.nx_graph(n, edges)
+    if form == "nxr":
+        # same labelled graph, vertices inserted in reverse order (photon i = i-th vertex in iteration order; the map is keyed by label)
+        g = nx.Graph()
+        g.add_nodes_from(range(n - 1, -1, -1))
+        g.add_edges_from(edges)
+        return g
     from .. import solverutil as su
     return su.make_target(n, edges, {"g": "g", "s": "s", "dm": "dm"}[form])
 
@@ -194,6 +200,8 @@ def run_shard(shard, tier, acc):
                     seeds = (0, 1) if (tier == "thorough" or (params is not None and params["n_iso"] == 3 and params["sort_emit"])) else (0,)
                     for seed in seeds:
                         run_case(acc, n, edges, "nx", params, seed, None)
+                for params in (None, {"n_iso": 2, "n_lc": 2, "lc_method": None, "sort_emit": True}, {"n_iso": 1, "n_lc": 3, "lc_method": "depth_first", "sort_emit": False}):
+                    run_case(acc, n, edges, "nxr", params, 0, None)
                 if n <= 4:
                     for form in ("g", "s", "dm"):
                         run_case(acc, n, edges, form, {"n_iso": 2, "n_lc": 2, "lc_method": None, "sort_emit": True}, 0, None)
